@@ -122,12 +122,16 @@ func (nw *oplConfigWatcher) parseFiles() {
 		namespaces = make([]*namespace.Namespace, 0)
 		errs       []error
 	)
-	for _, reader := range nw.files.byPath {
+	for path, reader := range nw.files.byPath {
 		content, err := io.ReadAll(reader)
 		if err != nil {
 			errs = append(errs, err)
 			continue
 		}
+		// ReadAll consumed the reader, but all files are parsed again on every
+		// event: keep the content so that the next event for another file does
+		// not see this one as empty.
+		nw.files.byPath[path] = bytes.NewReader(content)
 		nn, ee := schema.Parse(string(content))
 		for _, e := range ee {
 			errs = append(errs, e)
